@@ -162,9 +162,9 @@ theorem shrCarry_snoc (r : Nat) (l : List Nat) (x c : Nat) :
     rw [List.cons_append, shrCarry_cons, ih, shrCarry_cons]
     simp
 
-theorem shrv_loop2_bridge (rem : BitVec 32) (h0 : 0 < rem.toNat) (h64 : rem.toNat < 64) :
+theorem shrv_loop2_bridge (L : Nat) (rem : BitVec 32) (h0 : 0 < rem.toNat) (h64 : rem.toNat < 64) :
     ∀ (n : Nat) (limbs : List (BitVec 64)) (c : BitVec 64), n ≤ limbs.length →
-      nats (Uint.overflowing_shr_vartime_loop2 rem n limbs c).1 =
+      nats (Uint.overflowing_shr_vartime_loop2 L rem n limbs c).1 =
         (shrCarry rem.toNat (nats (limbs.take n)) c.toNat).1 ++ nats (limbs.drop n) := by
   intro n
   induction n with
@@ -206,7 +206,7 @@ theorem overflowingShrVartime_bridge (a : List (BitVec 64)) (s : BitVec 32) (hL 
       have h0 : 0 < (s % 64#32).toNat := by rw [mod64_toNat]; omega
       have h64 : (s % 64#32).toNat < 64 := by rw [mod64_toNat]; omega
       simp only [div64_toNat, eT]
-      rw [shrv_loop2_bridge (s % 64#32) h0 h64 (a.length - s.toNat / 64) _ 0#64
+      rw [shrv_loop2_bridge a.length (s % 64#32) h0 h64 (a.length - s.toNat / 64) _ 0#64
         (by rw [shrv_loop1_eq a.length a rfl _ hk _ _ _ (by omega) (by simp)]; simp)]
       have hm := shrMove_bridge a _ hk
       simp only [nats] at hm
